@@ -16,10 +16,10 @@ CLAIMED = {
  "C02": ("(a) fair-lossy liveness: budgeted per-identity drops, duplication, reordering, bounded delay on an established connection, random placement plus systematic single-/pair-drop placement over every datagram ordinal; oracle: all accepted bytes read at the peer, flush/shutdown return, nothing parked, by the longest legitimate recovery time after the last fault. (b) loss-free fixed-latency promptness: wire-silence bound 2L+40 ms, idle write/shutdown emit at the same instant, flush wakes at the covering ACK.",
          TRUST + "Premise checks (connector writes first; retransmission cap/inactivity sized for the budget) give no verdict when not met. Known finding F6 (no persist timer) and F1.",
          SIM + ": seeded search + systematic single/pair fault placement, bounded-liveness and timing oracles over the recorded history", "DESIGN.md §3 C02"),
- "C03": ("Duplex runs with a termination fault (cut forever, kill, forged RESET, cancel, FIN-exchange loss, cut at the very instant flush/shutdown returned Ok) at a seeded instant inside in-flight activity; oracles: success means delivered, EOF only after the bytes preceding a delivered FIN, failures surface within the configured bound (same instant for RESET/cancel).",
+ "C03": ("Duplex runs with a termination fault (cut forever, kill, forged RESET, cancel, FIN-exchange loss, cut at the very instant flush/shutdown returned Ok) at a seeded instant inside in-flight activity; oracles: success means delivered, EOF only after the bytes preceding a delivered FIN, failures surface within the configured bound (same instant for RESET/cancel). A second family races the application's close against the peer's last packets and aborts right behind a flush/shutdown.",
          TRUST + "An endpoint that is purely idle when its peer vanishes has no obligation. Back-pressure runs get 1 s slack for 'same instant'. Known findings F1, F6.",
          SIM + ": seeded search over termination-fault instants, history oracles on API results vs wire", "DESIGN.md §3 C03"),
- "C08": ("Many open-transfer-close cycles on one socket pair against max_live_vsocks 1-4 with loss concentrated on closing packets, RESET, cancel, suspend, partitions; oracles: task ends within B(config) of the application letting go, table size == live tasks, silence after task end, no spurious TooManyActiveConnections, cancellation ends all tasks at that instant.",
+ "C08": ("Many open-transfer-close cycles on one socket pair against max_live_vsocks 1-4 with loss concentrated on closing packets, RESET, cancel, suspend, partitions; oracles: task ends within B(config) of the application letting go, table size == live tasks, silence after task end, no spurious TooManyActiveConnections, cancellation ends all tasks at that instant and every call on a stream half pending at, or made after, the cancellation returns. Also run on the listener/connectors family of C13 (abandoned accepts).",
          TRUST + "Obligation only for the side whose application let go (or failed). Known finding F6.",
          SIM + ": seeded search over connection life cycles, probe (task create/drop, table size) + wire + API oracles", "DESIGN.md §3 C08"),
  "C11": ("(i) every datagram emitted in every run parsed by an independent BEP-29 parser incl. connection-id-owed-to-direction; (ii) library header codec round-trips every emitted header byte for byte; (iii) differential accept/reject between the socket's own verdict (hook H3) and the reference parser on every delivered datagram incl. seeded corruptions (bit flips in type/version/extension bytes/header fields, truncation, garbage, payload toggling, unknown extensions); unknown extensions must not move the payload boundary (C01 oracle under extension insertion).",
@@ -43,28 +43,28 @@ CLAIMED = {
  "C06": ("Scripted receiver with loss, withheld / duplicate / selective / stale ACKs, plus passive clauses on lossy duplex runs; oracles: timeout retransmission not before the minimum RTO after the timer can last have been (re)started, doubling gaps within 200 ms..60 s, fast retransmit at the third duplicate ACK or SACK evidence (outside timeout recovery), retransmission cap ends the connection with an application-visible error, nothing acknowledged is re-emitted, stable bytes per sequence number (only a never-acknowledged probe is re-cut, with a consistent prefix).",
          TRUST + "Which emissions are timeout retransmissions is read from the end-of-poll snapshot (hook H2). A segment larger than the link's smallest segment size is treated as a possible probe. Known findings F1, F15.",
          SIM + ": scripted-peer loss/ACK histories, wire + timing oracle", "DESIGN.md §3 C06"),
- "C07": ("Paced compliant scripted sender (one datagram per virtual instant, no back-pressure) with seeded gaps, duplicates, reordering, FIN, reader stalls; oracles: every in-order packet is acknowledged within 40 ms, immediately on a duplicate / out-of-order / gap-filling packet, two full segments or FIN, no ST_STATE without something new to say, a re-opened zero window is announced at once.",
+ "C07": ("Paced compliant scripted sender (one datagram per virtual instant, no back-pressure) with seeded gaps, duplicates, reordering, FIN, reader stalls; oracles: every in-order packet is acknowledged within 40 ms, immediately on a duplicate / out-of-order / gap-filling packet, two full segments or FIN, no ST_STATE without something new to say, a re-opened zero window is announced at once (also when one large packet both grew the segment size and closed the window, with a reader that drains within milliseconds or seconds; also with the endpoint's own sender blocked by a closed peer window).",
          TRUST + "Timing clauses are judged only in the paced family where 'same instant' is unambiguous.",
          SIM + ": scripted-peer paced histories, timing oracle on emitted ACKs", "DESIGN.md §3 C07"),
- "C17": ("Scripted peer in both roles drives every teardown and handshake corner (SYN-ACK retry and give-up, FIN before/after data, simultaneous close, FIN loss, RESET in every state, duplicate SYN, data after FIN, hostile acknowledgement numbers) plus duplex close races; oracles over wire + API + end-of-poll state: legal state sequence, SYN-ACK retries bounded, FIN only after all data was sent and numbered after it, FIN acknowledged only in sequence, RESET surfaces as an error and silences the endpoint, LastAck waits (or not) as configured.",
-         TRUST + "Rules that need a well-behaved peer are gated on the script not being hostile.",
+ "C17": ("Scripted peer in both roles drives every teardown and handshake corner (SYN-ACK retry and give-up, FIN before/after data, simultaneous close, FIN loss, RESET in every state, duplicate SYN, data after FIN, hostile acknowledgement numbers) plus duplex close races; oracles over wire + API + end-of-poll state: legal state sequence, SYN-ACK retries bounded, FIN only after all data was sent and numbered after it, FIN acknowledged only in sequence, RESET surfaces as an error and silences the endpoint, LastAck waits (or not) as configured; while the endpoint's FIN is out and unacknowledged its retransmission timer is armed at the end of every poll, and a FIN that is due (application closed, nothing left to send or acknowledge) is sent in that poll.",
+         TRUST + "Rules that need a well-behaved peer are gated on the script not being hostile. A RESET that reaches a connection whose close handshake is complete is moot. Known finding F29 (a probe re-cut after the FIN was sent takes the FIN's number; thorough tier).",
          SIM + ": scripted-peer teardown histories, state-sequence oracle", "DESIGN.md §3 C17"),
  "C18": ("Scripted receiver with seeded ACK timing and windows against seeded small-write patterns, both Nagle settings; oracles: (on) no first transmission smaller than the usable segment size while earlier data is un-acknowledged unless the window limits it, held bytes leave at the instant the pipe drains; (off) nothing stays un-segmented at the end of a poll unless window / congestion control / a probe / recovery holds it.",
          TRUST + "Usable segment size = min(what the wire proves, the sender's own segment size from hook H2). Known finding F21 (segments pre-cut to a stale window).",
          SIM + ": scripted-peer ACK timing, wire oracle on first-transmission sizes", "DESIGN.md §3 C18"),
- "C19": ("Scripted receiver that acknowledges slowly, in bursts, selectively or not at all, against writers with seeded initial/maximum transmit-buffer sizes (tiny rings, growth steps, wrapped rings); oracles: accepted - acknowledged bytes <= max(initial, maximum), ring capacity <= limit, a blocked write completes at the instant an ACK frees space, every payload byte on the wire equals the written stream at its offset (growth keeps order).",
+ "C19": ("Scripted receiver that acknowledges slowly, in bursts, selectively or not at all, against writers with seeded initial/maximum transmit-buffer sizes (tiny rings, growth steps, wrapped rings); oracles: accepted - acknowledged bytes <= max(initial, maximum), ring capacity <= limit, a blocked write completes at the instant an ACK frees space, every payload byte on the wire equals the written stream at its offset (growth keeps order). Shapes include a peer whose acknowledgements ride only on retransmitted copies of its own data packet, and a writer that abandons a blocked write and polls again through a fresh waker.",
          TRUST + "Acknowledged = longest cumulatively-or-selectively acknowledged prefix (what a ring can release). Known finding F1.",
          SIM + ": scripted-peer ACK schedules, conservation oracle accepted/acked/wire bytes", "DESIGN.md §3 C19"),
  "C09": ("Metamorphic pairs of simulated runs: the same scenario (configuration, workload, fault decisions by datagram ordinal) is executed with small initial sequence numbers / connection ids and again with numbers at or near the 16-bit wrap, the sign boundary, 0 and 65535 (hook: UtpEnvironment::random_u16 forced); the two packet traces, fates and application histories must be identical after relabelling by the difference of the initial values. A wide-window family (loss-free, 12-92 byte segments, 1 MiB buffers, long fat pipe) puts thousands of packets in the queue when the numbers wrap.",
          TRUST + "NOT claimed: the second sentence's 'for the arithmetic itself, all pairs of 16-bit values' by exhaustive enumeration - a pure function of its input is not a simulation target; the arithmetic is exercised only through the distances running connections produce (up to several thousand packets).",
          SIM + ": metamorphic comparison of two seeded simulated runs differing only in the environment's random_u16 stream", "DESIGN.md §3 C09"),
- "C10": ("A raw attacker endpoint injects seeded hostile datagrams at a real socket while honest connections run on it and a later connect/accept pair probes the service: garbage, truncations, bad version/type, absurd seq/ack/window values, ACKs and SACKs of data never sent, SACK extensions of any length (0..255), unknown / overrunning extension chains, types illegal in the state, from its own address, from unbound addresses and with the honest peer's spoofed address, aimed at unknown ids, at the attacker's own established connection, and next to (±1..3) the honest connection's id. Oracles: no panic, no 'bug:' error anywhere, connect/accept never report a dead dispatcher, receive/transmit buffering and socket tables bounded, every honest connection completes intact.",
-         TRUST + "NOT claimed: 'for all byte strings' by enumeration (only the seeded population is covered; the parser differential is C11). A spoofed datagram that names exactly the honest connection's id, and a spoofed SYN that takes the id of the honest peer's next connection, are attacks on that connection itself and exempt from the isolation oracle. A SYN flood beyond the accept calls provided is not generated.",
+ "C10": ("A raw attacker endpoint injects seeded hostile datagrams at a real socket while honest connections run on it and a later connect/accept pair probes the service: garbage, truncations, bad version/type, absurd seq/ack/window values, ACKs and SACKs of data never sent, SACK extensions of any length (0..255), unknown / overrunning extension chains, types illegal in the state, from its own address, from unbound addresses and with the honest peer's spoofed address, aimed at unknown ids, at the attacker's own established connection (incl. data at the edge of the reassembly queue, acknowledgements with SACK bitmaps up to 32000 packets late, data riding right behind the SYN), next to (±1..3) the honest connection's id, and a spoofed SYN that clashes with the target's pending connect; in some runs the sockets' send buffers are full now and then (back-pressure). Oracles: no panic, no 'bug:' error anywhere, connect/accept never report a dead dispatcher, receive/transmit buffering and socket tables bounded, every honest connection completes intact.",
+         TRUST + "NOT claimed: 'for all byte strings' by enumeration (only the seeded population is covered; the parser differential is C11). A spoofed datagram that names exactly the honest connection's id, and a spoofed SYN that takes the id of the honest peer's next connection, are attacks on that connection itself and exempt from the isolation oracle. A SYN flood beyond the accept calls provided is not generated. Whether a forged datagram names an honest connection is decided from the wire (a random id can hit it by luck); two honest sockets picking adjacent ids clash among themselves and are not judged. Known finding F31 (send wake-up lost when several connections share a full socket).",
          SIM + ": seeded hostile-datagram injection (faults) into simulated honest conversations, crash/bug/isolation/bound oracles", "DESIGN.md §3 C10"),
- "C12": ("2-4 real sockets with 2-28 simultaneous connections in both directions (several per address pair), per-stream keyed payloads, colliding connection-id counters (every socket starts at the same id, ids at 0/65535), connection limits 1-10, loss/dup/reorder or loss-free; oracles: every stream intact (per-connection C01), an accepted stream surfaces on the socket it was addressed to and once, receive connection ids of simultaneously live connections between one address pair are unique (hook H6), live connections never exceed the limit, in loss-free runs every established connection completes undisturbed by refused attempts.",
+ "C12": ("2-4 real sockets with 2-28 simultaneous connections in both directions (several per address pair), per-stream keyed payloads, colliding connection-id counters (every socket starts at the same id, ids at 0/65535), connection limits 1-10, loss/dup/reorder or loss-free, abandoned accept calls queued in front of live ones; oracles: every stream intact (per-connection C01), an accepted stream surfaces on the socket it was addressed to and once, receive connection ids of simultaneously live connections between one address pair are unique (hook H6), live connections never exceed the limit, in loss-free runs every established connection completes undisturbed by refused attempts.",
          TRUST + "Known finding F1.",
          SIM + ": seeded search over concurrent connection schedules, per-connection stream oracle + id-uniqueness and limit invariants over probes", "DESIGN.md §3 C12"),
- "C13": ("One listener and 1-14 connector sockets, up to 54 connects in bursts, accept calls before / after / long after the SYNs, cancelled connect and accept futures, duplicate SYNs, listener connection limits; oracles: a successful connect surfaces at exactly one accept and the pair is wired together (token + per-connection C01), requests are handed over in SYN arrival order and accept calls served in call order, backlog <= 32 and RESET only while it is full, no SYN vanishes (accepted, queued or refused), a failed connect is never due to a leaked connecting slot, no slot held at the end, no request left queued while an accept waits.",
+ "C13": ("One listener and 1-14 connector sockets, up to 54 connects in bursts, accept calls before / after / long after the SYNs, cancelled connect and accept futures, duplicate SYNs (incl. duplication-only runs that lose nothing), listener connection limits; oracles: a successful connect surfaces at exactly one accept and the pair is wired together (token + per-connection C01) and, on a network that loses nothing, stays so until both applications closed (no call on either stream fails), requests are handed over in SYN arrival order and accept calls served in call order, backlog <= 32 and RESET only while it is full, no SYN vanishes (accepted, queued or refused), a failed connect is never due to a leaked connecting slot, no slot held at the end, no request left queued while an accept waits.",
          TRUST + "Arrival-order clause judged only when the network delivered no SYN twice. Known finding F1.",
          SIM + ": seeded search over connect/accept/cancel interleavings, pairing/order/conservation oracles over API + wire + socket probes", "DESIGN.md §3 C13"),
 }
